@@ -215,28 +215,16 @@ theorem reduce_spec_all_arms (N : NttOps K) (ω : Nat → K) (hN : NttDft N ω) 
 example : denote ([3, 0, 1] : List ℚ) ≠ 0 := by
   intro h; have := congrArg (fun p => p.coeff 0) h; simp at this
 
-/-- full statement for `formal_power_series_inverse_newton`: for every transform pair that is the DFT, every cut-off,
-    every `f` with non-zero constant term and every precision `n`: `f·g ≡ 1 (mod X^n)` -/
-def fps_inverse_newton_statement : Prop :=
-  ∀ (K : Type) [Field K] (root : Nat → Option K) (N : NttOps K) (ω : Nat → K), NttDft N ω →
-    ∀ (cutoff : Nat) (f : List K) (precision : Nat), (denote f).coeff 0 ≠ 0 →
-      ∃ g, fpsInverseNewton (FieldOps.ofField K root) N cutoff f precision = some g ∧
-        (X ^ precision : K[X]) ∣ denote f * denote g - 1
-
-/-- proved part of `fps_inverse_newton_statement`: the arms that use polynomial arithmetic only — constant `f`, and
-    `switch_point ≥ num_rounds` (for the production cut-off 256: every precision `n ≤ 256 / deg f`, e.g. all
-    `n ≤ 256` for linear `f`) — for every cut-off value.  Missing: the rounds computed in the NTT domain. -/
-theorem fps_inverse_newton_spec_partial (N : NttOps K) (cutoff : Nat) (f : List K) (precision : Nat)
-    (h0 : (denote f).coeff 0 ≠ 0)
-    (harm : (denote f).natDegree = 0 ∨
-      Nat.log2 (nextPowerOfTwo precision) ≤
-        (if cutoff < (denote f).natDegree then 0 else Nat.log2 (cutoff / (denote f).natDegree))) :
+/-- **`formal_power_series_inverse_newton`**: for every transform pair that is the DFT (`NttDft`, property C06), every
+    value of `FORMAL_POWER_SERIES_INVERSE_CUTOFF`, every storage of `f` with non-zero constant term and **every
+    precision `n`** (0, 1, non-powers of two, …): no panic and `f·g ≡ 1 (mod X^n)` — in all arms: constant `f`,
+    polynomial-arithmetic rounds only, and the rounds computed in the NTT domain with domain growth -/
+theorem fps_inverse_newton_spec (N : NttOps K) (ω : Nat → K) (hN : NttDft N ω) (cutoff : Nat) (f : List K)
+    (precision : Nat) (h0 : (denote f).coeff 0 ≠ 0) :
     ∃ g, fpsInverseNewton FK N cutoff f precision = some g ∧
       (X ^ precision : K[X]) ∣ denote f * denote g - 1 :=
-  fpsInverseNewton_standard_spec root N cutoff f precision h0 harm
-example : (denote ([1, 1] : List ℚ)).coeff 0 ≠ 0 ∧
-    Nat.log2 (nextPowerOfTwo 200) ≤ (if 256 < 1 then 0 else Nat.log2 (256 / 1)) := by
-  refine ⟨by simp, by decide⟩
+  fpsInverseNewton_spec root hN cutoff f precision h0
+example : (denote ([1, 1, 0, 5] : List ℚ)).coeff 0 ≠ 0 := by simp
 
 /-- `formal_power_series_inverse_newton` panics for the zero polynomial and for a zero constant term -/
 theorem fps_inverse_newton_panics (N : NttOps K) (cutoff : Nat) (f : List K) (precision : Nat)
